@@ -960,3 +960,42 @@ def _additive_self(t, h, l, depth=0):
     if t[0] == "phi":
         return all(_additive_self(o, h, l, depth + 1) for o in t[2])
     return False
+
+
+@rule("R-HEADER-PRECISION", ["C15", "C08"])
+def r_header_precision(cx):
+    """The geometry of a Gravsoft grid (boundaries and spacing) is what the file says, to double precision: in
+    `gravsoft_grid_reader` every number that is read from the text and stored as f64 is parsed as f64 - a value that went
+    through f32 on its way (parse::<f32>, or a narrowing cast) moves the boundaries by up to 4e-6 degrees, so that points
+    on the boundary fall outside and node positions no longer coincide with the nodes."""
+    name = "grid::gravsoft_grid_reader"
+    if not cx.f.has_fn(name):
+        cx.ob("R-HEADER-PRECISION", "anchor", False, "anchor-missing: %s" % name)
+        return
+    f = cx.f.fn(name)
+    n = 0
+    for bb, t in f.calls():
+        if not ((f.callee(t) or "").endswith("Vec::<T, A>::push") and (t.get("callee_full") or "").startswith("std::vec::Vec::<f64>")):
+            continue
+        a = f.arg_terms(bb)
+        if len(a) < 2:
+            continue
+        parses, narrow = [], []
+
+        def vis(y):
+            if y[0] == "call" and isinstance(y[1], str) and y[1].endswith("str>::parse") and isinstance(y[3], int):
+                parses.append((f.term(y[3]).get("callee_full") or ""))
+            if y[0] == "cast" and len(y) > 3 and str(y[3]) == "f32":
+                narrow.append(1)
+            return True
+        mir.walk(a[1], vis)
+        if not parses:
+            continue
+        n += 1
+        ok = all(p.endswith("parse::<f64>") for p in parses) and not narrow
+        cx.ob("R-HEADER-PRECISION", "gravsoft/header%d" % (n - 1), ok,
+              "the header numbers are parsed and kept as f64" if ok else
+              "gravsoft_grid_reader stores a number as f64 that was read through f32 (%s): boundaries and spacing of the grid "
+              "are rounded to single precision" % (", ".join(p.rsplit("::", 1)[-1] for p in parses) + (" with a narrowing cast" if narrow else "")),
+              cx.where(t["span"]))
+    cx.count("R-HEADER-PRECISION", "header_stores", n)
